@@ -386,6 +386,25 @@ def derived_classes(S, rep):
         overrides = [f.name for f in cls.body if isinstance(f, ast.FunctionDef)]
         bad = [m for m in overrides if m in ("load", "_save", "add_as_lagrangian_fields_for_io", "add_as_eulerian_fields_for_io")]
         rep.ob("C17.c", "%s keeps the base save/load" % cls.name, not bad, "overrides %s" % bad, key="C17.c|%s|overrides|%s" % (cls.name, bad), nontrivial=False)
+        # arrays a derived class registers with the IO layer are refreshed IN PLACE afterwards: rebinding the attribute leaves the
+        # registered array (the one save writes and load fills) behind
+        init = next((x for x in cls.body if isinstance(x, ast.FunctionDef) and x.name == "__init__"), None)
+        registered = set()
+        for n in ast.walk(init) if init is not None else []:
+            if isinstance(n, ast.Call) and isinstance(n.func, ast.Attribute) and n.func.attr.startswith("add_as_") and n.func.attr.endswith("_for_io"):
+                for v in list(n.args) + [k.value for k in n.keywords]:
+                    if isinstance(v, ast.Attribute) and isinstance(v.value, ast.Name) and v.value.id == "self":
+                        registered.add(v.attr)
+        for f in [x for x in cls.body if isinstance(x, ast.FunctionDef) and x.name != "__init__"]:
+            for st in ast.walk(f):
+                tg = st.targets if isinstance(st, ast.Assign) else [st.target] if isinstance(st, (ast.AugAssign, ast.AnnAssign)) else []
+                for t in tg:
+                    if isinstance(t, ast.Attribute) and isinstance(t.value, ast.Name) and t.value.id == "self" and t.attr in registered \
+                            and not isinstance(st, ast.AugAssign):
+                        rep.ob("C17.c", "%s.%s keeps the registered array" % (cls.name, f.name), False,
+                               "self.%s is registered with the IO layer in __init__ and rebound here (line %d): the registered array is no longer the one that is refreshed" % (t.attr, st.lineno),
+                               key="C17.c|%s|%s|rebinds|%s" % (cls.name, f.name, t.attr))
+        rep.ob("C17.c", "%s registers %d of its own arrays" % (cls.name, len(registered)), True, "registered: %s" % sorted(registered), key="C17.c|%s|registered" % cls.name, nontrivial=False)
         if "save" in overrides:
             f = next(x for x in cls.body if isinstance(x, ast.FunctionDef) and x.name == "save")
             calls = [ast.unparse(n.func) for n in ast.walk(f) if isinstance(n, ast.Call)]
